@@ -148,8 +148,56 @@ func c16(r *ev.Run) {
 		}
 		afterWarmups(r, "parse-only-after-other-operations", ps, parseOnly)
 	}
+	// retained URLs: a batch of URLs is generated first and only then turned into text and parsed back - a URL that has
+	// been handed out must not change when later ones are generated (one goroutine, so a failure replays)
+	batch := func(k int) []c16Case {
+		var cs []c16Case
+		for i := 0; i < 6; i++ {
+			cs = append(cs, c16Case{Kind: []string{"totp", "hotp"}[(i+k)%2], Issuer: fmt.Sprintf("Issuer %d/%d", k, i), Account: fmt.Sprintf("user%d@example-%d.org", i, k), Secret: "JBSWY3DPEHPK3PXP", Digits: []int{6, 8, 10}[i%3], Algo: (i + k) % 3, Period: []uint64{30, 60}[i%2]})
+		}
+		return cs
+	}
+	retained := func(cs []c16Case) (obs, bad string) {
+		emptySyncPools()
+		var us []*url.URL
+		for _, c := range cs {
+			p := otp.URLParam{Issuer: c.Issuer, AccountName: c.Account, Secret: c.Secret, Digits: otp.Digits(c.Digits), Algorithm: otp.Algorithm(c.Algo), Period: uint(c.Period)}
+			var u *url.URL
+			var err error
+			if c.Kind == "totp" {
+				u, err = otp.GenerateTOTPURL(p)
+			} else {
+				u, err = otp.GenerateHOTPURL(p)
+			}
+			if err != nil {
+				return "generror", "generation failed: " + err.Error()
+			}
+			us = append(us, u)
+		}
+		for i, u := range us {
+			text := u.String()
+			obs += text + " "
+			pu, err := url.Parse(text)
+			if err != nil {
+				return obs, fmt.Sprintf("URL %d of the batch no longer parses as a URL after the later ones were generated", i)
+			}
+			back, err := otp.ParseOTPAuthURL(pu)
+			if err != nil || back == nil || back.Issuer != cs[i].Issuer || back.AccountName != cs[i].Account || back.Secret != cs[i].Secret {
+				return obs, fmt.Sprintf("URL %d of the batch, turned into text after the later ones were generated, parses back as %+v, want issuer %q account %q", i, back, cs[i].Issuer, cs[i].Account)
+			}
+		}
+		return obs, ""
+	}
+	r.Scenario("retained-urls", func(raw []byte) (string, string) { return retained(unjson[[]c16Case](raw)) })
 	if ReplayOnly {
 		return
+	}
+	for k := 0; k < 8; k++ {
+		cs := batch(k)
+		if obs, bad := retained(cs); bad != "" {
+			r.Fail("retained-urls", bad, cs, "every URL of the batch round-trips", obs)
+		}
+		r.Eval(int64(len(cs)))
 	}
 	atoms := []string{"a", "Z", "0", " ", "%", "/", "?", "#", "&", "=", "+", "@", ".", "-", "_", "~", "\"", "<", "\\", "\t", "é", "日", "😀", "\xff", "%41", "%zz", "%2F", "%25", ";", ","}
 	str := func(maxLen int, extra []string) []string {
